@@ -91,6 +91,29 @@ def npNUnprunedLeavesToIndex (toIndex : Nat) : Nat := nLeaves (insertionToPmmrIn
 
 end Backend
 
+/-! ### `clean_rewind_files` (`check_compact`'s last step) = `clean_files_by_prefix(data_dir,
+"pmmr_leaf.bin.", 24 h)`: old leaf-set snapshot files are deleted -/
+
+/-- a directory entry: name, is it a directory, seconds since the last access (`none`: the access
+time lies in the future / cannot be read - `duration_since` fails, the entry is skipped) -/
+structure DirEnt where
+  name : String
+  isDir : Bool
+  age : Option Nat
+deriving Repr, DecidableEq
+
+def PMMR_LEAF_FILE : String := "pmmr_leaf.bin"
+def REWIND_FILE_CLEANUP_DURATION_SECONDS : Nat := 60 * 60 * 24
+
+/-- is this entry deleted by `clean_files_by_prefix(dir, pfx, dur)`? -/
+def cleanDeletes (pfx : String) (dur : Nat) (e : DirEnt) : Bool :=
+  !e.isDir && (match e.age with | some a => decide (a > dur) | none => false) &&
+  e.name.startsWith pfx && decide (e.name.length > pfx.length)
+
+/-- the names `clean_rewind_files` deletes -/
+def cleanRewindFiles (ents : List DirEnt) : List String :=
+  (ents.filter (cleanDeletes (PMMR_LEAF_FILE ++ ".") REWIND_FILE_CLEANUP_DURATION_SECONDS)).map (·.name)
+
 namespace PM
 variable {H : Type} (el : Bytes → Option Nat) (hf : HashFn Bytes H)
 
